@@ -548,7 +548,7 @@ def probe(ctx, cfg, ref, nthreads):
     return seqs
 
 
-def controlled(ctx, cfg, ref, nthreads, fine, nsample, rng):
+def controlled(ctx, cfg, ref, nthreads, fine, nsample, rng, limit=ENUM_LIMIT):
     """All (or sampled) interleavings for one (config, nthreads, granularity)."""
     seqs = probe(ctx, cfg, ref, nthreads)
     if seqs is None:
@@ -558,7 +558,7 @@ def controlled(ctx, cfg, ref, nthreads, fine, nsample, rng):
     counts = [len(s) * (2 if fine else 1) for s in seqs]
     fp2w = {s[0]: w for w, s in enumerate(seqs)}
     total = H.multinomial(counts)
-    exhaustive = total <= ENUM_LIMIT
+    exhaustive = total <= limit
     if exhaustive:
         scheds = H.all_interleavings(counts)
     else:
@@ -660,7 +660,8 @@ def fam_sampled(ctx, k):
     choices = [2, 3, n + 2, max(2, n // 2), n, 4, n - 1, n + 1, 1]
     nth = int(choices[(k + k // len(LARGE)) % len(choices)]) if k < 9 * len(LARGE) else int(rng.integers(1, n + 3))
     nth = max(1, min(nth, n + 2))
-    controlled(ctx, cfg, ref, nth, fine=bool(k % 2), nsample=ctx.scale(16, 40), rng=rng)
+    controlled(ctx, cfg, ref, nth, fine=bool(k % 2), nsample=ctx.scale(16, 40), rng=rng,
+               limit=ctx.scale(200, ENUM_LIMIT))
 
 
 def fam_sweep(ctx, k):
